@@ -145,6 +145,22 @@ class Evidence:
         os.replace(tmp, p)
 
 
+def crash_cause(stderr):
+    """a short, stable description of why the process died (part of crash signatures, so that a known finding
+    about one crash does not hide other crashes)"""
+    m = re.search(r"ERROR: AddressSanitizer: ([a-zA-Z-]+)", stderr or "")
+    kind = m.group(1) if m else None
+    if "__gmp_divide_by_zero" in (stderr or ""):
+        f = re.search(r"#\d+ 0x[0-9a-f]+ in (\w+) /var/tmp/qsx-cache", stderr)
+        return "gmp-divide-by-zero:" + (re.sub(r"^(mpq|dbl|mpf)_", "", f.group(1)) if f else "?")
+    if kind:
+        f = re.search(r"#\d+ 0x[0-9a-f]+ in (\w+) /var/tmp/qsx-cache", stderr)
+        return "asan-%s:%s" % (kind, re.sub(r"^(mpq|dbl|mpf)_", "", f.group(1)) if f else "?")
+    if "runtime error:" in (stderr or ""):
+        return "ubsan"
+    return "other"
+
+
 def load_known():
     p = os.path.join(VERIF, "known_findings.json")
     if not os.path.exists(p):
